@@ -64,11 +64,15 @@ func gen(r *rand.Rand, idx int, tier string) Input {
 		if r.Intn(3) == 0 {
 			span = 1
 		}
-		if r.Intn(12) == 0 { // an upload of 100 s or more: sub-range answers approximate (model comparison + retention clauses only)
-			span = int64(10 + r.Intn(25))
-		}
 		off := minSlot + r.Int63n(maxSlot-minSlot)
 		from := base + off*10
+		if r.Intn(10) == 0 { // an upload of 100 s or more: sub-range answers approximate (model comparison + retention clauses only)
+			span = int64(10 + r.Intn(25))
+			if r.Intn(2) == 0 { // exactly one or more aligned 100 s buckets: a present node without children
+				from = (from+stor.UnixOffset)/100*100 - stor.UnixOffset
+				span = int64(10 * (1 + r.Intn(3)))
+			}
+		}
 		if guard != 0 && from > guard-40 && from < guard+40 { // stay clear of the clock slack
 			from = guard + 60 + r.Int63n(20)*10
 			from = from / 10 * 10
@@ -103,8 +107,36 @@ func gen(r *rand.Rand, idx int, tier string) Input {
 		in.Ops = append(in.Ops, mkPut())
 	}
 	nmut := 1 + r.Intn(3)
+	kinds := make([]int, nmut)
+	thresholds := make([]int64, nmut)
 	for i := 0; i < nmut; i++ {
-		kind := r.Intn(5)
+		kinds[i] = r.Intn(5)
+		if kinds[i] == 2 || kinds[i] == 3 {
+			t := base + (minSlot+r.Int63n(maxSlot-minSlot))*10
+			switch r.Intn(3) {
+			case 0:
+				t = (t+stor.UnixOffset)/100*100 - stor.UnixOffset
+			case 1:
+				t += r.Int63n(10)
+			}
+			if r.Intn(3) == 0 { // exactly the start of some upload's window
+				for _, op := range in.Ops {
+					if op.Kind == "put" && r.Intn(3) == 0 {
+						t = op.From / 10 * 10
+					}
+				}
+			}
+			thresholds[i] = t
+			// queries that start exactly at the threshold (must be unchanged) and end exactly there (must be empty)
+			for a := 0; a < napps; a++ {
+				app := all[a][0].App + "{}"
+				queries = append(queries, stor.Op{Kind: "get", Name: app, From: t / 10 * 10, Until: t/10*10 + 100*int64(1+r.Intn(3))})
+				queries = append(queries, stor.Op{Kind: "get", Name: app, From: t/10*10 - 200, Until: t / 10 * 10})
+			}
+		}
+	}
+	for i := 0; i < nmut; i++ {
+		kind := kinds[i]
 		if kind <= 1 && r.Intn(2) == 0 {
 			// the other series' objects are on disk only when the delete runs (no query in between reloads them)
 			if r.Intn(3) == 0 {
@@ -125,15 +157,8 @@ func gen(r *rand.Rand, idx int, tier string) Input {
 				sel = stor.RandSelector(r, all[r.Intn(napps)])
 			}
 			in.Ops = append(in.Ops, stor.Op{Kind: "delete", Name: sel.RandName(r)})
-		case 2, 3: // retention pass, threshold on or off a bucket boundary
-			t := base + (minSlot+r.Int63n(maxSlot-minSlot))*10
-			switch r.Intn(3) {
-			case 0:
-				t = (t+stor.UnixOffset)/100*100 - stor.UnixOffset
-			case 1:
-				t += r.Int63n(10)
-			}
-			in.Ops = append(in.Ops, stor.Op{Kind: "retention", From: t})
+		case 2, 3: // retention pass, threshold on or off a bucket boundary (chosen above)
+			in.Ops = append(in.Ops, stor.Op{Kind: "retention", From: thresholds[i]})
 		default: // an ingest that the guard may reject
 			in.Ops = append(in.Ops, mkPut())
 		}
